@@ -56,28 +56,33 @@ static void on_handler(var e) {
   fflush(OUT);
 }
 
-#define TC(M, ...) case M: { try { run(n->a); } catch (__VA_ARGS__) { on_handler(e); run(n->b); } } break;
+/* one C function per filter combination, so that a frame holds one jmp_buf only (nesting to
+ * EXCEPTION_MAX_DEPTH must fit the C stack) */
+#define TC(M, ...) static void run_try_##M(Node* n) { \
+  try { run(n->a); } catch (__VA_ARGS__) { on_handler(e); run(n->b); } }
+TC(0, e)
+TC(1, e in K0)
+TC(2, e in K1)
+TC(3, e in K0, K1)
+TC(4, e in K2)
+TC(5, e in K0, K2)
+TC(6, e in K1, K2)
+TC(7, e in K0, K1, K2)
+TC(8, e in K3)
+TC(9, e in K0, K3)
+TC(10, e in K1, K3)
+TC(11, e in K0, K1, K3)
+TC(12, e in K2, K3)
+TC(13, e in K0, K2, K3)
+TC(14, e in K1, K2, K3)
+TC(15, e in K0, K1, K2, K3)
+static void (*run_try_tab[16])(Node*) = {
+  run_try_0, run_try_1, run_try_2, run_try_3, run_try_4, run_try_5, run_try_6, run_try_7,
+  run_try_8, run_try_9, run_try_10, run_try_11, run_try_12, run_try_13, run_try_14, run_try_15 };
 
 static void run_try(Node* n) {
   size_t d0 = len(current(Exception));
-  switch (n->mask) {
-    TC(0, e)
-    TC(1, e in K0)
-    TC(2, e in K1)
-    TC(3, e in K0, K1)
-    TC(4, e in K2)
-    TC(5, e in K0, K2)
-    TC(6, e in K1, K2)
-    TC(7, e in K0, K1, K2)
-    TC(8, e in K3)
-    TC(9, e in K0, K3)
-    TC(10, e in K1, K3)
-    TC(11, e in K0, K1, K3)
-    TC(12, e in K2, K3)
-    TC(13, e in K0, K2, K3)
-    TC(14, e in K1, K2, K3)
-    TC(15, e in K0, K1, K2, K3)
-  }
+  run_try_tab[n->mask & 15](n);
   size_t d1 = len(current(Exception));
   if (d1 != d0) { P("X%zu->%zu ", d0, d1); fflush(OUT); }
 }
